@@ -174,6 +174,25 @@ CHECKS = {
         technique="Lean 4 proof over a rational model of the window functions + skeleton lift + differential correspondence",
         design="§4 C02",
     ),
+    "C14": dict(
+        text=("Proof (Lean 4): the ordered 19-step list of _check_inputs_and_convert_if_possible, the output checks, the helper predicates' source text, the order facts of both apply methods (post-init first, checks before any map over locations, "
+              "converted arrays passed on, output checked before return) and the five time-check sites are REGENERATED from the AST on every run and proved equal to the model; an interpreter of the step list yields: first non-ndarray argument => TypeError naming it "
+              "whatever else is wrong, then unconvertible dtype, ndim != 3, differing spatial shapes => ValueError, otherwise acceptance with the exact ordered warning list (int -> float, masked -> NaN-filled plain array, NaN/inf, out-of-range), time lengths unconstrained, "
+              "and ValueError exactly on a mismatch in a consumed time position. Tier B: the full matrix position x 29 malformations x 8 debiasers plus pairs / triples through the real apply with instrumented apply_location."),
+        note="Trusted: the AST extractor; the numpy meaning of each helper predicate (tied to its source text, validated by the correspondence); instance-level instrumentation. Unconsumed time arrays are accepted with any length (no date is used).",
+        technique="Lean 4 proof over a step list regenerated from source + exhaustive matrix correspondence",
+        design="§4 C14",
+    ),
+    "C15": dict(
+        text=("Proof (Lean 4): the variable table, the shape of _from_variable and of the name lookup, every debiaser's default / experimental key sets, the docstring support table, the attrs field lists with validators, the ISIMIP bound defaults (code and documented), "
+              "the flattened __attrs_post_init__ rules and the has_* properties are REGENERATED from the source on every run and proved equal to the model; from_variable = published table over the full 8 x 14 matrix (by decide), case-insensitive, Variable object = its key, "
+              "kwargs win, assign + apply = construct + apply (post-init idempotent; guard: QDM cdf_threshold given - witness that the guard is needed), invalid settings rejected, ISIMIP defaults unbounded. Tier B: the matrix x four spellings, every (debiaser, field) "
+              "constructor- vs attribute-configured compared bitwise, invalid values, post-init outcomes."),
+        note=("Guards from the property's own quantifier: QDM cdf_threshold (and, read the same way, the QDM/pr distribution that carries the censoring threshold) given explicitly. Trusted: the extractor, attrs semantics (converters / validators on init and setattr), ASCII lower-casing. "
+              "Observation: CDFt.apply_by_month is documented but read by no code."),
+        technique="Lean 4 proof over tables regenerated from source (decide over the complete matrix) + exhaustive correspondence",
+        design="§4 C15",
+    ),
 }
 
 
